@@ -114,7 +114,7 @@ def check(ctx):
     for ref, allowed in want.items():
         h = ctx.fn(ref)
         rr = [c for c in calls(h.node, nested=True) if call_attr(c) == "randrange"]
-        ctx.require(len(rr) >= 2, "%s: randrange sites not found" % h.fq)
+        ctx.require(len(rr) >= 1, "%s: randrange sites not found" % h.fq)
         for c in rr:
             lo, hi = ast.unparse(c.args[0]), ast.unparse(c.args[1])
             ok = lo == "0" and hi in allowed
@@ -178,13 +178,15 @@ def check(ctx):
     scp = ctx.fn("random:UCSolutionEnumerator.sum_combination_products")
     ts = [x for x in statements(scp.node) if isinstance(x, ast.If) and "shapes[0]" in ast.unparse(x.test)]
     ctx.require(len(ts) == 1, "sum_combination_products: shortcut test not found")
-    t = ast.unparse(ts[0].test)
+    from ..sym import cond_literals as _cl
+    t = sorted(_cl(ts[0].test, True))
     ret = [ast.unparse(x.value) for x in ts[0].body if isinstance(x, ast.Return)]
-    ctx.check(t == "all([s == shapes[0] for s in shapes]) and uniform_m" and ret == ["solution_count * pow(shapes[0], first_n)"], R, scp, "closed form only for the uniform case",
+    ctx.check(t == ["all([(_b0 == shapes[0]) for _b0 in shapes])", "uniform_m"] and ret == ["solution_count * pow(shapes[0], first_n)"], R, scp, "closed form only for the uniform case",
               "the product shortcut is taken only when every combination has the same number of completions AND every combination has the same number of copies",
               "sum_combination_products takes the closed form under `%s` returning %s: with unequal completions per combination the count must be summed over the arrangements" % (t, ret), ts[0])
-    um = [ast.unparse(x) for x in statements(scp.node) if isinstance(x, ast.If) and "uniform_m" in ast.unparse(x)]
-    ctx.check(any("isinstance(m_or_counters, int)" in u and "all([m == m_or_counters[0] for m in m_or_counters])" in u for u in um), R, scp, "uniform copies",
+    Fs_ = Facts(scp)
+    um_nf = str(Fs_.at(ts[0], ast.Name(id="uniform_m", ctx=ast.Load())))
+    ctx.check(um_nf == "(all([(_b0 == m_or_counters[0]) for _b0 in m_or_counters]) or isinstance(m_or_counters, int))", R, scp, "uniform copies",
               "uniform copies: a single m, or a counter list whose entries are all equal", "the uniform-copies test of sum_combination_products changed")
     body = ast.unparse(scp.node)
     ctx.check("for i in range(0, solution_count):" in body and "prod *= shapes[p]" in body and "s += prod" in body and
